@@ -196,6 +196,13 @@ class Interp:
                 return nx
             items[i] = nx
             return ("tuple", tuple(items))
+        if v[0] == "enum" and str(f).isdigit() and int(f) < len(v[2]):     # tuple struct / tuple variant field
+            items = list(v[2])
+            nx = self._upd(st, items[int(f)], path[1:], val)
+            if isinstance(nx, tuple) and nx and nx[0] == "__redirect__":
+                return nx
+            items[int(f)] = nx
+            return ("enum", v[1], tuple(items))
         return v  # write into unknown: stays unknown
 
     def deref_place(self, st, v):
@@ -978,8 +985,12 @@ class Interp:
         return v
 
     def deref_val(self, st, v):
+        n = 0
         while v[0] == "ref":
             v = self.read(st, v[1])
+            n += 1
+            if n > 64:
+                raise Violation("cyclic reference %s" % (v,))
         return v
 
     def e_Binary(self, n, st):
@@ -1141,6 +1152,10 @@ class Interp:
             r = self.module.intrinsic(self, callee, args, st, n)
             if r is not None:
                 return r
+        if callee in ("<T as core::convert::Into<U>>::into", "core::convert::Into::into") and isinstance(n, dict) and args:
+            k = self._from_impl(n.get("ty"), self.deref_val(st, args[0]))
+            if k is not None:
+                return self.call(k, args, st, n)
         r = self.std_intrinsic(callee, args, st, n)
         if r is not None:
             return r
@@ -1151,9 +1166,35 @@ class Interp:
         if f is not None and f.get("x", "").startswith("m:Derive:Clone"):
             return [(OK, self.deref_val(st, args[0]), st)]
         if f is not None and "body" in f and st.depth < self.max_depth and self.callstack.count(callee) <= self.max_recursion:
+            ps, ins = f.get("params") or [], f.get("inputs") or []
+            if args and ps and ins and ps[0].get("name") == "self" and not ins[0].startswith(("&", "*")) and args[0][0] == "ref":
+                # by-value receiver: the method call passed the place; the callee owns a copy of the value
+                args = [self.deref_val(st, args[0])] + list(args[1:])
             return self.inline(f, args, st)
         self.unknown_calls[callee] = self.unknown_calls.get(callee, 0) + 1
         return [(OK, unk("call:" + callee), st)]
+
+    def _from_impl(self, target_ty, v):
+        """workspace `impl From<A> for B`: resolve x.into() by the static result type and the value's type"""
+        idx = getattr(self, "_from_index", None)
+        if idx is None:
+            idx = {}
+            for k, f in self.facts.fns.items():
+                if f.get("name") == "from" and "core::convert::From<" in k and "body" in f and f.get("inputs") and not str(f.get("output")).startswith("rowan::"):
+                    idx.setdefault(f.get("output"), []).append((f["inputs"][0], k))
+            self._from_index = idx
+        cands = idx.get(target_ty)
+        if not cands or not isinstance(v, tuple):
+            return None
+        ty = None
+        if v[0] == "enum":
+            ty = v[1] if v[1] in self.facts.adts else v[1].rsplit("::", 1)[0]
+        elif v[0] == "struct":
+            ty = v[1]
+        for inp, k in cands:
+            if inp == ty:
+                return k
+        return None
 
     def _refs_in(self, v, acc):
         if not isinstance(v, tuple) or not v:
